@@ -2160,3 +2160,17 @@ M("C17-angle-directory-satisfies-the-probe", "C17", F_PP, _ANG, _ANG.replace("  
 M("C17-angle-directories-walked-backwards", "C17", F_PP, _ANG,
   _ANG.replace("for (size_t dir = 0; dir < _angle_include_path.get_num_directories(); ++dir) {", "for (size_t dir = _angle_include_path.get_num_directories(); dir-- > 0;) {"),
   expect="R17.1|find_include|directory-loop")
+
+# ---- R04.13 (F-C04d: private member class defined out of line was exported)
+F_SC = "src/cppparser/cppScope.cxx"
+M("C04-member-class-access-not-carried", "C04", F_SC,
+  "      if (_struct_type != nullptr) {\n        // A member class keeps the access it was declared with in its class,\n        // also when it is defined outside of it.\n        type->_vis = other_ext->_vis;\n      }\n", "",
+  expect="R04.13|define_extension_type|")
+M("C04-type-declaration-takes-scope-visibility", "C04", F_SC,
+  "      type_decl->_type->_vis > decl->_vis) {\n    decl->_vis = type_decl->_type->_vis;\n  }\n", "      false) {\n  }\n",
+  expect="R04.13|add_declaration|")
+M("C04-type-declaration-takes-the-wider-access", "C04", F_SC,
+  "      type_decl->_type->_vis > decl->_vis) {", "      type_decl->_type->_vis < decl->_vis) {",
+  expect="R04.13|add_declaration|")
+M("C04-benign-member-class-access-condition-swapped", "C04", F_SC,
+  "      type_decl->_type->_vis > decl->_vis) {", "      decl->_vis < type_decl->_type->_vis) {", benign=True)
